@@ -438,6 +438,7 @@ fn disjoint_iter() -> SimResult {
     let bound = parallelism * num_results.max(parallelism);
     let budget = 60 * g.peers.len() + 300;
     let mut finished = false;
+    let mut expired = 0usize;
     for _ in 0..budget {
         match it.next(web_time::Instant::now()) {
             kv::IterState::Finished => {
@@ -449,8 +450,14 @@ fn disjoint_iter() -> SimResult {
                 in_flight.push((p, elapsed()));
             }
             _ => {
+                let before = in_flight.len();
                 in_flight.retain(|(_, since)| elapsed() < *since + timeout);
+                expired += before - in_flight.len();
                 if in_flight.is_empty() {
+                    // A path parked on a request that another path issued keeps its own, later deadline for it: waiting with
+                    // nothing in flight is legitimate only after some request ran into the peer timeout. If every request was
+                    // answered (success or failure), all paths have been told and the iterator must move on.
+                    ensure!(expired > 0, "C39/no-termination", "the disjoint iterator waits although every request it handed out has been answered and none timed out ({} contacted, {} succeeded, {parallelism} paths, num_results {num_results})", contacted.len(), succeeded.len());
                     advance(timeout);
                     continue;
                 }
